@@ -752,10 +752,8 @@ def stmt(env, depth):
         ty = env.vars[name]
         if ty.startswith("list["):
             return stmt(env, depth)
-        if ty == "float" and rng.random() < 0.25:
-            # a narrower numeric value into a float variable (every later float operation stays valid Python)
-            env.feat("assign numeric cross-type")
-            return [f"{name} = {gen_num(env, 2, rng.choice(['int', 'bool']))[0]}"]
+        # (no int/bool value into a float variable: the transpiler then re-labels the variable, and a user function called
+        #  with it gets a second overload - listed finding F-C06-overload-ambiguous; guard: one type label per name)
         env.feat("assign existing")
         return [f"{name} = {gen_typed(env, 2, ty)}"]
     if k == "aug":
@@ -1011,6 +1009,9 @@ def b_without(b, v):
 def while_stmt(env, depth):
     rng = env.rng
     c, _ = gen_bool(env, 2)
+    if c in ("True", "False"):
+        # `while True:` is the main loop of the documented style, never an ordinary statement
+        c = f"({c} and (digital_read(2) == 1))"
     b = env.clone_scope()
     b.loop_depth += 1
     out = [f"while {c}:"] + indent(block(b, depth - 1, rng.randint(1, 3)))
